@@ -781,6 +781,53 @@ def guard_option_just_filled(body, site):
     return None
 
 
+def guard_for_index_call(E, body, site):
+    """`v[i]` (an Index::index call on a Vec / slice with a usize index) dominated by the true arm of `i < v.len()`"""
+    c = site.call
+    if not any(g in ("usize",) for g in c.gargs) and "usize" not in str(c.args[1].get("place", {}).get("ty", "")) and \
+            c.args[1].get("ty") != "usize":
+        return None
+    recv = strip_refs(body.expr(c.args[0]))
+    ix = body.expr(c.args[1])
+
+    def core(x):
+        for _ in range(10):
+            x = strip_expr(x)
+            if x[0] == "ref":
+                x = x[1]
+            elif x[0] == "place" and not x[2] and all(p[0] == "deref" for p in x[4]):
+                x = x[1]
+            else:
+                break
+        return x
+    for b in sorted(body.reachable()):
+        t = body.term(b)
+        if t["k"] != "switch" or not body.dominates(b, site.bb) or b == site.bb:
+            continue
+        e = strip_expr(body.expr(t["discr"]))
+        if e[0] != "binop" or e[1] not in ("Lt", "Ge", "Gt", "Le"):
+            continue
+        ft = bool_switch_true_target(body, b)
+        if ft is None:
+            continue
+        l, r, op = e[2], e[3], e[1]
+        if op in ("Gt", "Le"):          # len > i  /  len <= i
+            l, r, op = r, l, {"Gt": "Lt", "Le": "Ge"}[op]
+        ln = strip_expr(r)
+        if not (ln[0] == "call" and ln[1].endswith("::len") and ln[2]):
+            continue
+        if not same_value(l, ix):
+            continue
+        a, bq = core(ln[2][0]), core(recv)
+        same = _norm_e(a) == _norm_e(bq) or (a[0] == "call" and bq[0] == "call" and len(a) > 3 and len(bq) > 3 and a[3] is bq[3])
+        if not same:
+            continue
+        arm = ft[1] if op == "Lt" else ft[0]
+        if body.dominates(arm, site.bb) or arm == site.bb:
+            return "dominated by `%s < len` of the same vector (bb%d)" % (show(strip_expr(ix)), b)
+    return None
+
+
 def guard_for_map_index(F, body, site):
     """`map[key]` dominated by the true arm of `map.contains_key(key)` on the same map and key -- directly or through a
     method of the same type that returns exactly that test (`fn has(&self, k) -> bool { self.0.contains_key(k) }`)."""
@@ -888,6 +935,10 @@ class Discharger:
             g = guard_option_just_filled(body, s)
             if g:
                 return ("guard", g)
+        if s.kind == "index" and s.call is not None and "HashMap" not in s.call.callee and len(s.call.args) >= 2:
+            g = guard_for_index_call(self.E, body, s)
+            if g:
+                return ("guard", g)
         if s.kind == "index" and s.call is not None and "HashMap" in s.call.callee and len(s.call.args) >= 2:
             g = guard_for_map_index(self.F, body, s)
             if g:
@@ -898,8 +949,16 @@ class Discharger:
             # the site sits in a closure of the function the row names (a loop body turned into `.map(|x| ..)`, an `if`
             # turned into `.then(|| ..)`): it is still that function's site
             fn, rest = s.key.split("|", 1)
-            pkey = fn.split("::{closure", 1)[0] + "|" + re.sub(r"#\d+$", "", rest)
+            pfn = fn.split("::{closure", 1)[0]
+            pkey = pfn + "|" + re.sub(r"#\d+$", "", rest)
             prow = self.rows.get(pkey)
+            if prow is None:
+                # inside the closure the indexed field is a capture slot (`of:.0`), not the field name: match the parent's
+                # row by site kind and callee when that is unambiguous
+                kc = "|".join(rest.split("|")[:2])
+                cands = [k2 for k2 in self.rows if k2.startswith(pfn + "|") and "|".join(k2.split("|")[1:3]) == kc]
+                if len(cands) == 1:
+                    pkey, prow = cands[0], self.rows[cands[0]]
             if prow is not None:
                 chk = prow.get("check")
                 pbody = self.F.bodies.get(fn.split("::{closure", 1)[0])
@@ -917,7 +976,9 @@ class Discharger:
                 if r2.get("check") is None or "|" not in k2:
                     continue
                 fn2, rest2 = k2.split("|", 1)
-                if fn2.rsplit("::", 1)[0] == owner and re.sub(r"#\d+$", "", rest2) == rest0:
+                owner2 = fn2.rsplit("::", 1)[0]
+                # same type, or a free helper function in the module that defines the type (`mod::Type::f` -> `mod::helper`)
+                if (owner2 == owner or owner2.rsplit("::", 1)[0] == owner) and re.sub(r"#\d+$", "", rest2) == rest0:
                     row, rkey = r2, k2
                     break
         if row is not None:
